@@ -1,10 +1,11 @@
 """C08 is decided on two layers: the shutdown state machine (signal -> quit dispatch -> stop of every watcher ->
 loop stop -> sockets closed) on the core model, the pid file (harness/props/c08_pidfile.py) and the managed sockets and their
-unix-socket files (harness/props/c08_sockets.py, the sockets layer of C07 with reloadconfig and quit)."""
+unix-socket files (harness/props/c08_sockets.py, the sockets layer of C07 with reloadconfig and quit; harness/props/c08_reuseport.py,
+oracle only, for `so_reuseport` unix sockets, which are outside that layer's model)."""
 from harness.corecheck import make
-from harness.props import c08_pidfile, c08_sockets
+from harness.props import c08_pidfile, c08_sockets, c08_reuseport
 PARTS = [make("C08", ["CircusProofs/Props/C08.lean", "CircusProofs/Props/C08Run.lean"],
               ["CircusProofs/Core/Pres.lean", "CircusProofs/Core/KStep.lean", "CircusProofs/Core/Generic.lean", "CircusProofs/Core/SlotFree.lean", "CircusProofs/Core/NoClose.lean", "CircusProofs/Core/ArbInv.lean", "CircusProofs/Core/Init.lean",
                "CircusProofs/Props/C02.lean", "CircusProofs/Props/C06.lean", "CircusProofs/Core/Conv.lean",
                "CircusProofs/Core/StopRun.lean", "CircusProofs/Core/StopRunG.lean"]),
-         c08_pidfile, c08_sockets]
+         c08_pidfile, c08_sockets, c08_reuseport]
